@@ -73,6 +73,55 @@ func (fr *frame) callFunction(v ssa.Value, callee *ssa.Function, args, binds []V
 		fr.callLog = map[string][][]Val{}
 	}
 	fr.callLog[callee.Name()] = append(fr.callLog[callee.Name()], args)
+	if u.trackCalls[callee.Name()] {
+		return fr.trackedCall(v, callee, args, binds, pos)
+	}
+	return fr.callFunction2(v, callee, args, binds, pos)
+}
+
+// trackedCall maintains the ghost call record of functions named in ncalls()/lastarg()/lastres()
+func (fr *frame) trackedCall(v ssa.Value, callee *ssa.Function, args, binds []Val, pos ssa.Instruction) Val {
+	u := fr.u
+	name := callee.Name()
+	ck := u.regKey("Calls."+name, "Int")
+	fr.st.set(ck, "(+ "+fr.st.get(u, ck)+" 1)")
+	for i, a := range args {
+		if a.typ == nil {
+			continue
+		}
+		func() {
+			defer func() {
+				if r := recover(); r != nil {
+					if _, ok := r.(unsupported); !ok {
+						panic(r)
+					}
+				}
+			}()
+			t := fr.term(a)
+			srt := u.sortOf(a.typ)
+			k := u.regKey(fmt.Sprintf("Arg.%s.%d.%s", name, i, sortTag(srt)), srt)
+			u.argKeyType[k] = a.typ
+			fr.st.set(k, t)
+		}()
+	}
+	res := fr.callFunction2(v, callee, args, binds, pos)
+	rs := callee.Signature.Results()
+	if rs.Len() > 0 {
+		last := res
+		if res.tup != nil {
+			last = res.tup[len(res.tup)-1]
+		}
+		lt := rs.At(rs.Len() - 1).Type()
+		if _, ok := lt.Underlying().(*types.Interface); ok && last.t != "" {
+			rk := u.regKey("Res."+name, "Ifc")
+			fr.st.set(rk, last.t)
+		}
+	}
+	return res
+}
+
+func (fr *frame) callFunction2(v ssa.Value, callee *ssa.Function, args, binds []Val, pos ssa.Instruction) Val {
+	u := fr.u
 	if r, ok := fr.intrinsic(v, callee, args, pos); ok {
 		return r
 	}
@@ -240,6 +289,19 @@ func (fr *frame) contractCall(v ssa.Value, callee *ssa.Function, ct *Contract, a
 	}
 	// the callee may allocate: the allocation counter moves forward
 	allocPre := fr.st.get(u, allocKey)
+	allocates := false
+	for _, en := range ct.Ensures {
+		if strings.Contains(en.Src, "fresh(") {
+			allocates = true
+		}
+	}
+	if allocates {
+		// the state of the objects the callee allocates is given by its postcondition only
+		u.nfresh++
+		ws := fr.st.ws
+		prevSt := fr.st
+		fr.st = &state{over: map[string]string{}, base: &allocProv{tag: fr.tag(fmt.Sprintf("ac%d", u.nfresh)), prev: prevSt, allocPre: allocPre, cache: map[string]string{}}, ws: ws, u: u}
+	}
 	allocPost := u.declConst(fr.tag("alloc_after"), "Int")
 	u.assert("(>= " + allocPost + " " + allocPre + ")")
 	fr.st.set(allocKey, allocPost)
@@ -306,6 +368,13 @@ func (env *specEnv) resolveModifies(mk string) (ts []modTarget, ok bool) {
 	u := env.u
 	if _, isKey := u.keySort[mk]; isKey {
 		return []modTarget{{mk, ""}}, true
+	}
+	if p, isFree := env.freeCells[mk]; isFree && p.kind == pHeapStruct && len(p.path) == 0 {
+		st := p.typ.Underlying().(*types.Struct)
+		for f := 0; f < st.NumFields(); f++ {
+			ts = append(ts, modTarget{u.keyField(p.typ, f), p.ref})
+		}
+		return ts, true
 	}
 	if p, isFree := env.freeCells[mk]; isFree && p.kind == pHeapCell {
 		ts = append(ts, modTarget{u.keyCell(p.typ), p.ref})
@@ -466,7 +535,7 @@ func (fr *frame) havocAllMark(why, mark string) {
 	// the thread-local ghost lock state survives: unknown code is assumed lock-neutral
 	keep := map[string]string{}
 	for k := range u.keySort {
-		if strings.HasPrefix(k, "Held.") || strings.HasPrefix(k, "Blk.") || strings.HasPrefix(k, "cell.") || strings.HasPrefix(k, "iter.") {
+		if threadLocalKey(k) {
 			keep[k] = fr.st.get(u, k)
 		}
 	}
@@ -546,6 +615,28 @@ func (fr *frame) invokeCall(v ssa.Value, c *ssa.CallCommon, recv Val) Val {
 }
 
 func (fr *frame) invokeCallVals(v ssa.Value, c *ssa.CallCommon, recv Val, rest []Val) Val {
+	u := fr.u
+	name := c.Method.Name()
+	if !u.trackCalls[name] {
+		return fr.invokeCallVals2(v, c, recv, rest)
+	}
+	ck := u.regKey("Calls."+name, "Int")
+	fr.st.set(ck, "(+ "+fr.st.get(u, ck)+" 1)")
+	res := fr.invokeCallVals2(v, c, recv, rest)
+	sig := c.Method.Type().(*types.Signature)
+	if sig.Results().Len() > 0 {
+		last := res
+		if res.tup != nil {
+			last = res.tup[len(res.tup)-1]
+		}
+		if _, ok := sig.Results().At(sig.Results().Len()-1).Type().Underlying().(*types.Interface); ok && last.t != "" {
+			fr.st.set(u.regKey("Res."+name, "Ifc"), last.t)
+		}
+	}
+	return res
+}
+
+func (fr *frame) invokeCallVals2(v ssa.Value, c *ssa.CallCommon, recv Val, rest []Val) Val {
 	u := fr.u
 	// interface method contract: key "(pkg.Iface).Method"
 	var args []Val
